@@ -113,7 +113,7 @@ static void on_trap(int, siginfo_t*, void* ucv)
   if (n == g_k2) adversary(g_action2);
   mprotect(reinterpret_cast<void*>(g_base), RSIZE, PROT_NONE);
 }
-static void arm() { g_reads = 0; g_armed = 1; if (g_k == 0) adversary(g_action); if (g_k2 == 0) adversary(g_action2); mprotect(reinterpret_cast<void*>(g_base), RSIZE, PROT_NONE); }
+static void arm() { vsbx::g_n_same_sbx = 0; g_reads = 0; g_armed = 1; if (g_k == 0) adversary(g_action); if (g_k2 == 0) adversary(g_action2); mprotect(reinterpret_cast<void*>(g_base), RSIZE, PROT_NONE); }
 static void disarm() { g_armed = 0; mprotect(reinterpret_cast<void*>(g_base), RSIZE, PROT_READ | PROT_WRITE); }
 
 // ---- what the verifier got ------------------------------------------------------------------------
@@ -134,6 +134,12 @@ static std::string after(const void* p, size_t n)
   std::string before(static_cast<const char*>(p), n);
   std::memset(at(0x80), 0xAA, 0x600);
   return std::memcmp(before.data(), p, n) == 0 ? "same" : "CHANGED";
+}
+// the extent of the last range that rlbox range-checked (first and last byte handed to is_in_same_sandbox)
+static std::string checked_extent()
+{
+  if (vsbx::g_n_same_sbx == 0) return "none";
+  return std::to_string((long long)(vsbx::g_last_same_sbx[1] - vsbx::g_last_same_sbx[0]) + 1);
 }
 static std::string show_off(const void* p)
 {
@@ -203,6 +209,22 @@ static std::string run_variant(const std::string& variant, const std::string& sr
     auto r = (*p).copy_and_verify([&](tainted<vst12, SbxA> v) -> vst12 { disarm(); return v.UNSAFE_unverified(); });
     return "c=" + std::to_string((int)r.c) + ",l=" + std::to_string(r.l) + ",p=" + show_off(r.p);
   }
+  if (variant == "structauto") {
+    // a verifier with a deduced parameter: it must still be handed an application-memory copy
+    auto p = mkptr<vst12>(STRUCT);
+    arm();
+    std::string seen;
+    auto r = (*p).copy_and_verify([&](const auto& v) -> vst12 {
+      disarm();
+      vst12 first = v.UNSAFE_unverified();
+      std::string w = where(std::addressof(v));
+      std::memset(at(0x80), 0xAA, 0x600);
+      vst12 second = v.UNSAFE_unverified();
+      seen = " where=" + w + " after=" + ((first.c == second.c && first.l == second.l && first.p == second.p) ? "same" : "CHANGED");
+      return first;
+    });
+    return "c=" + std::to_string((int)r.c) + ",l=" + std::to_string(r.l) + ",p=" + show_off(r.p) + seen;
+  }
   if (variant == "arr") {
     auto p = mkptr<int[N_ARR]>(ARR);
     arm();
@@ -233,7 +255,7 @@ static std::string run_variant(const std::string& variant, const std::string& sr
         if (size == 0) return "untracked";
         const void* z = std::memchr(s.get(), 0, size);
         long nul = z ? (long)(static_cast<const char*>(z) - s.get()) : -1;
-        return "s=" + hex(s.get(), size) + " size=" + std::to_string(size) + " nul=" + std::to_string(nul) + " where=" + where(s.get()) + " after=" + after(s.get(), size);
+        return "s=" + hex(s.get(), size) + " size=" + std::to_string(size) + " nul=" + std::to_string(nul) + " chk=" + checked_extent() + " where=" + where(s.get()) + " after=" + after(s.get(), size);
       });
     });
   }
@@ -241,7 +263,7 @@ static std::string run_variant(const std::string& variant, const std::string& sr
     return with_src<char>(src, STR, [&](auto& p) {
       return p.copy_and_verify_string([&](std::string s) -> std::string {
         disarm();
-        return "s=" + hex(s.data(), s.size()) + " size=" + std::to_string(s.size()) + " where=" + where(s.data()) + " after=" + after(s.data(), s.size());
+        return "s=" + hex(s.data(), s.size()) + " size=" + std::to_string(s.size()) + " chk=" + checked_extent() + " where=" + where(s.data()) + " after=" + after(s.data(), s.size());
       });
     });
   }
